@@ -36,7 +36,11 @@ def shards(tier, seed):
              'n': 5 if tier == 'quick' else 100}]
 
 
+_WHEN = ''
+
+
 def _fact(rec, name, got, exp, mech, case=None):
+    name = name + _WHEN
     rec.ev()
     rec.nt(canon.digest(name))
     if got != exp or type(got) is not type(exp):
@@ -64,10 +68,62 @@ def _doc_defaults(cls):
     return out
 
 
+def _use_everything(rec, commands):
+    """Ordinary use of every class between two walks of the catalogue:
+    construct, repr/str/format (what DEBUG logging does), iterate, dict,
+    compare, copy, pickle, encode, decode, fail to decode.  None of it may
+    change the catalogue."""
+    import copy
+    import logging
+    import pickle
+    from pamqp import exceptions, frame, header
+    n = 0
+    for idx, cls in sorted(commands.INDEX_MAPPING.items()):
+        for make in (lambda: cls(),):
+            c = call(make)
+            if not c.ok:
+                continue
+            o = c.value
+            for fn in (repr, str, lambda x: '%r %s' % (x, x),
+                       lambda x: format(x), list, dict, len, copy.copy,
+                       copy.deepcopy, lambda x: x == x, lambda x: hash(
+                           type(x)), lambda x: x.attributes(),
+                       lambda x: [x.amqp_type(a) for a in x.attributes()],
+                       lambda x: [a in x for a in ('ticket', 'queue', 'x')],
+                       lambda x: logging.getLogger('vmon').debug(
+                           'frame %r %s', x, x),
+                       lambda x: repr(exceptions.UnmarshalingException(
+                           x, 'err')),
+                       lambda x: str(exceptions.UnmarshalingException(
+                           x, 'err')),
+                       lambda x: pickle.dumps(dict(x))):
+                call(fn, o)
+                n += 1
+            m = common.lib_marshal(o, 1)
+            if m.ok:
+                u = common.lib_unmarshal(m.value)
+                if u.ok:
+                    call(repr, u.value[2])
+                common.lib_unmarshal(m.value[:-2] + b'\xce')
+                n += 3
+    P = commands.Basic.Properties
+    for fn in (repr, str, list, dict, len, copy.deepcopy):
+        call(fn, P(content_type='x', headers={'a': [1]}))
+    call(repr, header.ContentHeader())
+    rec.count('ordinary_use_calls', n)
+
+
 def run_shard(shard, rec):
     from pamqp import commands
     if shard['what'] == 'walk':
+        global _WHEN
+        _WHEN = ' (after import)'
         _walk(rec, commands)
+        _use_everything(rec, commands)
+        _WHEN = ' (after every class was constructed, printed, logged, '\
+                'copied, encoded and decoded)'
+        _walk(rec, commands)
+        _WHEN = ''
     else:
         import random
         rnd = random.Random('C14:%s' % shard['seed'])
@@ -225,7 +281,9 @@ def gates(m, tier):
     if len(m.sets.get('classes_on_wire', ())) != 64:
         out.append('only %d/64 classes confirmed on the wire'
                    % len(m.sets.get('classes_on_wire', ())))
-    if m.counters.get('facts_agree', 0) < 1500 and not m.violations:
-        out.append('fewer than 1500 facts compared (%d)'
+    if not m.counters.get('ordinary_use_calls'):
+        out.append('the use-everything step did not run')
+    if m.counters.get('facts_agree', 0) < 3000 and not m.violations:
+        out.append('fewer than 3000 facts compared (%d)'
                    % m.counters.get('facts_agree', 0))
     return out
